@@ -659,6 +659,7 @@ def c12(ctx):
                         drain=True, maxsched=400 if q else 6000)
     ctx.random_validate("smpdev", 64 if q else 960, 3 if q else 6)
     ctx.random_validate("smpdeg", 32, 1)
+    ctx.random_validate("smpcount", 80, 1)
     ctx.random_validate("smp", 32 if q else 320, 4 if q else 10)
 
 
@@ -714,13 +715,19 @@ CHECK_DEADLOCK FALSE
         args = [vlib.BIN, "fragcheck", "-sizestep", ("11" if q else "1") if sender else "4001", "-part", str(i), "-parts", str(parts)]
         if i == 0:
             args += ["-sched", sched]
-        procs.append(subprocess.Popen(args, stdout=subprocess.PIPE, text=True))
+        procs.append(subprocess.Popen(args, stdout=subprocess.PIPE, stderr=subprocess.PIPE, text=True, errors="replace"))
     replayed = evals = viol = 0
     first = None
     for pr in procs:
-        o = pr.communicate()[0]
+        o, e = pr.communicate()
         if pr.returncode != 0:
-            raise Broken("fragcheck failed")
+            # a fatal runtime error (stack overflow, out of memory) cannot be recovered inside the process:
+            # if it happened in the library under one of the model's schedules it is a finding
+            if ("fatal error" in e or "panic:" in e) and "github.com/coyim/otr3." in e:
+                first = first or ("FRAGVIOLATION the library crashes under a fragment schedule of the specification: " + " | ".join(e.splitlines()[:3]))[:400]
+                viol += 1
+                continue
+            raise Broken("fragcheck failed: " + e[-500:])
         for line in o.splitlines():
             if line.startswith("FRAGVIOLATION") and first is None:
                 first = line
@@ -915,7 +922,10 @@ def c13(ctx):
                                per_msg=8 if q else 30, maxsched=40 if q else 300)
     ctx.random_validate("smpdev", 32 if q else 480, 3 if q else 6)
     ctx.random_validate("smpdeg", 32, 1)
+    ctx.random_validate("smpcount", 80, 1)
     ctx.random_validate("smptlv", 64, 1)
+    # fragments are untrusted input too: the fragment model's schedules (nested, foreign, other-format pieces)
+    frag_model(ctx, sender=False)
     ctx.random_validate("randfail", 160 if q else 1600, 90)
     ctx.random_validate("nokeys", 96 if q else 960, 40)
     st = go_check(ctx, ["parsefuzz", "-seed", str(ctx.seed)] + ([] if q else ["-deep"]), "PARSEFUZZ", "FUZZVIOLATION",
